@@ -480,3 +480,21 @@ package rlwe
 //@ afunc Parameters.ReadFrom
 //@   property C08
 //@   ensures implies(isnil(err), n == 4 + lastword(r))
+
+// ---- arguments are not retained (property C09): no reference to memory of the caller's input is stored
+// ---- into the receiver, the output or another argument (a pointer assignment where a copy was meant)
+//@ noescape Evaluator.Automorphism ctIn
+//@   property C09
+
+//@ noescape Evaluator.ApplyEvaluationKey ctIn
+//@   property C09
+
+//@ noescape Evaluator.Relinearize ctIn
+//@   property C09
+
+//@ noescape Decryptor.Decrypt ct
+//@   property C09
+
+//@ noescape Encryptor.Encrypt pt
+//@   property C09
+
